@@ -222,9 +222,22 @@ func (o *optimizer) etaReduction() {
 	}
 
 	// assume type-checked
-	matched := func(ctx astmatcher.Ctx, paramsFields []*ast.Field, argsExprs []ast.Expr) bool {
+	matched := func(ctx astmatcher.Ctx, lit *ast.FuncLit, paramsFields []*ast.Field, argsExprs []ast.Expr) bool {
 		if paramsFields == nil && argsExprs == nil {
 			return true
+		}
+		// func(xs ...T) { return f(xs) } passes ONE argument, f(xs...) spreads it:
+		// the literal must forward a variadic parameter as such, and only then
+		variadic := false
+		for _, paramGroup := range paramsFields {
+			if len(paramGroup.Names) == 0 {
+				return false // an unnamed parameter cannot be forwarded
+			}
+			_, variadic = paramGroup.Type.(*ast.Ellipsis)
+		}
+		call := lit.Body.List[0].(*ast.ReturnStmt).Results[0].(*ast.CallExpr)
+		if variadic != call.Ellipsis.IsValid() {
+			return false
 		}
 		var args []*ast.Ident
 		for _, argExpr := range argsExprs {
@@ -265,7 +278,7 @@ func (o *optimizer) etaReduction() {
 			params := ctx.Binds["params"].(*ast.FieldList).List
 			args := ctx.Binds["args"].(ExprsNode)
 			fun := ctx.Binds["fun"].(ast.Expr)
-			if matched(ctx, params, args) && stableCallee(ctx, c.Node(), fun) && sameType(ctx, c.Node(), fun) {
+			if matched(ctx, c.Node().(*ast.FuncLit), params, args) && stableCallee(ctx, c.Node(), fun) && sameType(ctx, c.Node(), fun) {
 				c.Replace(fun)
 			}
 		},
